@@ -28,6 +28,13 @@ HERE = os.path.dirname(os.path.abspath(__file__))
 sys.path.insert(0, os.path.dirname(HERE))
 
 
+def find_target(mod, unit):
+    """unit keys `mod:func#case` / `mod:func@loopN` fall back to the function's own target"""
+    import re
+    return (mod.TARGETS.get(unit) or mod.TARGETS.get(unit.split("#")[0])
+            or mod.TARGETS.get(re.sub(r"@loop\d+", "", unit.split("#")[0])))
+
+
 def main():
     ap = argparse.ArgumentParser()
     ap.add_argument("prop")
@@ -35,6 +42,7 @@ def main():
     ap.add_argument("--seed", type=int, default=0)
     ap.add_argument("--replay")
     ap.add_argument("--only")
+    ap.add_argument("--models")       # {unit: [{"obligation":..., "model": {...}}]}: solver counterexamples to replay
     args = ap.parse_args()
     repo = os.environ.get("CBI_REPO", "/repo")
     sys.path.insert(0, repo)
@@ -47,7 +55,10 @@ def main():
     if args.replay:
         with open(args.replay) as fh:
             rep = json.load(fh)
-        tgt = mod.TARGETS[rep["function"]]
+        tgt = find_target(mod, rep["function"])
+        if tgt is None:
+            print(json.dumps({"error": f"no native target for {rep['function']}"}))
+            sys.exit(3)
         inp = tgt.decode(rep["input"]) if hasattr(tgt, "decode") else rep["input"]
         f = tgt.check(inp)
         print(json.dumps({"replay": {"function": rep["function"], "input": rep["input"],
@@ -80,6 +91,28 @@ def main():
                                "bound": tgt.bound(args.tier), "seconds": round(time.time() - t0, 2),
                                "role": getattr(tgt, "role", "refuter + engine cross-check (bounded, not counted as proved)"),
                                "proved": getattr(tgt, "proved", True)}
+    if args.models:
+        with open(args.models) as fh:
+            models = json.load(fh)
+        out["model_replays"] = []
+        for unit, lst in models.items():
+            tgt = find_target(mod, unit)
+            if tgt is None or not hasattr(tgt, "from_model"):
+                continue
+            for item in lst[:8]:
+                try:
+                    inp = tgt.from_model(unit, item["model"])
+                    if inp is None:
+                        continue
+                    f = tgt.check(inp)
+                except Exception as e:      # noqa: BLE001  (a model that cannot be decoded is no verdict)
+                    out["model_replays"].append({"unit": unit, "obligation": item["obligation"], "error": str(e)})
+                    continue
+                enc = tgt.encode(inp) if hasattr(tgt, "encode") else inp
+                if f is not None:
+                    f["input"] = enc
+                out["model_replays"].append({"unit": unit, "obligation": item["obligation"], "input": enc,
+                                             "fails": f is not None, "detail": f})
     print(json.dumps(out, default=str))
 
 
